@@ -823,6 +823,14 @@ pub fn parent_main(def: &PropDef, ctx: &Ctx, cfg: &ParentCfg) -> Outcome {
                     notes.push(format!("witness of open finding {} inconclusive: {}", f.id, log));
                 }
             }
+            ("fixed", Some(true))
+                if log.lines().filter_map(|l| l.strip_prefix("SIG=")).all(|sig| ctx.known_sig(sig).is_some())
+                    && log.contains("SIG=") =>
+            {
+                // the witness of the repaired defect now fails only in the way of another,
+                // still open, listed finding
+                notes.push(format!("witness of fixed finding {} now fails as another open finding", f.id));
+            }
             ("fixed", Some(true)) => {
                 println!("regression of fixed finding {}: {}", f.id, log.trim());
                 println!("VIOLATION property={} replay={}", ctx.prop, wp.display());
